@@ -14,6 +14,7 @@ THEOREM_FILES = ["VectorModel/Props/C12.lean"]
 NOT_COVERED = ["NaN operands (outside the real-number model; property excludes them)",
                "numpy/awkward element semantics of ==, & and | (trusted contract, sampled by the correspondence)"]
 GROUP = {2: "planar", 3: "spatial", 4: "lorentz"}
+ALWAYS_SEARCH = True          # the law search on the real code is cheap (3 s): every tier runs it
 
 
 def cases(dim, s1, s2, r):
@@ -261,7 +262,19 @@ def search(ctx, broken):
     isclose_definition(ctx, r, dis_, out)
     for dim in (2, 3, 4):
         for s1, s2 in itertools.product(C.SIGS[dim], repeat=2):
-            for tag, a, b, _ in cases(dim, s1, s2, r):
+            extra = []
+            if s1 != s2 and dim <= 3:
+                # many operands related by the library's own conversion (where == holds bit for bit): rounding of a DIFFERENT conversion
+                # path inside isclose shows up on a fraction of ordinary values only
+                for _ in range(30):
+                    pt_ = [r.uniform(-4, 4) for _ in range(dim)]
+                    b_ = C.cart_to_stored(s2, pt_)
+                    try:
+                        conv = getattr(C.obj_vec("g", s2, b_), "to_" + "".join(C.signames(s1)))()
+                        extra.append(("library-converted", [float(x) for x in C.stored(conv)], b_, None))
+                    except Exception:  # noqa: BLE001
+                        pass
+            for tag, a, b, _ in cases(dim, s1, s2, r) + extra:
                 u, v = C.obj_vec("g", s1, a), C.obj_vec("m", s2, b)
                 e, n = bool(u == v), bool(u != v)
                 ok = (e != n) and bool(u == u) and (bool(v == u) == e if s1 == s2 else True) and bool(u.isclose(u)) \
